@@ -110,3 +110,51 @@ func MutateRaw(t *rapid.T, v val.V) (val.V, string) {
 	return apply(v, target), what
 }
 
+
+// MutateLeaf replaces one scalar leaf (a number, a string or a bool) of the raw tree by a hostile string: number
+// shapes at the edge of the integer / float / unit grammars, near-miss unit sentences, words. Whatever the schema
+// makes of it, two builds of the same schema must make the same of it.
+func MutateLeaf(t *rapid.T, v val.V) (val.V, string) {
+	var leaves [][]int
+	var walk func(x val.V, path []int)
+	walk = func(x val.V, path []int) {
+		if len(x.T) >= 3 && x.T[:3] == "map" {
+			for i, e := range x.M {
+				walk(e.V, append(path, i))
+			}
+			return
+		}
+		if len(x.L) > 0 || x.T == "[]any" {
+			for i, e := range x.L {
+				walk(e, append(path, -1-i))
+			}
+			return
+		}
+		switch x.T {
+		case "int64", "int", "uint64", "float64", "float32", "string", "bool", "int32", "uint8":
+			leaves = append(leaves, append([]int(nil), path...))
+		}
+	}
+	walk(v, nil)
+	if len(leaves) == 0 {
+		return v, ""
+	}
+	target := rapid.SampledFrom(leaves).Draw(t, "leafTarget")
+	str := rapid.SampledFrom(append([]string{"+5", "-0", "5.", ".5", "-1.5%", "1.5e3", "+5%", "5 %", "-5", "0x5", "5chars", "1.5char", "+1s", "1.s"}, hostileStrings...)).Draw(t, "leafString")
+	var apply func(x val.V, path []int) val.V
+	apply = func(x val.V, path []int) val.V {
+		if len(path) == 0 {
+			return val.Str(str)
+		}
+		c := x
+		if path[0] >= 0 {
+			c.M = append([]val.KV(nil), x.M...)
+			c.M[path[0]].V = apply(x.M[path[0]].V, path[1:])
+		} else {
+			c.L = append([]val.V(nil), x.L...)
+			c.L[-1-path[0]] = apply(x.L[-1-path[0]], path[1:])
+		}
+		return c
+	}
+	return apply(v, target), "leaf<-" + str
+}
